@@ -83,19 +83,50 @@ def bodyFollows (q : OReq) : Bool :=
 def headerLineO (h : Hdr) : Bytes := strB h.name ++ [58, 32] ++ h.value ++ [13, 10]
 
 /-- the units the writer emits atomically: request line; each header line; blank line glued to the last -/
-def expectedUnits (q0 : OReq) (dropNames : List String := []) : List Bytes :=
+def unitsOf (q : OReq) (all : List Hdr) : List Bytes :=
+  let reqLine := strB (q.method ++ " " ++ uriPathQuery q.uri ++ " " ++ q.version ++ "\r\n")
+  let lines := all.map headerLineO
+  match lines.reverse with
+  | [] => [reqLine]
+  | last :: revInit => reqLine :: (revInit.reverse ++ [last ++ [13, 10]])
+
+/-- the two lines the library derives (Host when the caller supplied none; the framing header of a body that
+    declares none) and the lines whose relative order the properties fix (caller-added, then original) -/
+def derivedAndFixed (q0 : OReq) (dropNames : List String) : List Hdr × List Hdr × List Hdr :=
   let q := { q0 with orig := q0.orig.filter fun h => !dropNames.contains h.name }
   let hs := effHeaders q
   let host : List Hdr := if (hdrVals hs "host").isEmpty then [{ name := "host", value := strB (uriHost q.uri) }] else []
   let framing : List Hdr :=
     if bodyFollows q && !(declaresChunkedH hs) && (hdrVals hs "content-length").isEmpty
     then [{ name := "transfer-encoding", value := strB "chunked" }] else []
-  let all := q.added ++ host ++ framing ++ q.orig
-  let reqLine := strB (q.method ++ " " ++ uriPathQuery q.uri ++ " " ++ q.version ++ "\r\n")
-  let lines := all.map headerLineO
-  match lines.reverse with
-  | [] => [reqLine]
-  | last :: revInit => reqLine :: (revInit.reverse ++ [last ++ [13, 10]])
+  (host ++ framing, q.added, q.orig)
+
+/-- the head as this crate lays it out today: caller-added, derived, original -/
+def expectedUnits (q0 : OReq) (dropNames : List String := []) : List Bytes :=
+  let (derived, added, orig) := derivedAndFixed q0 dropNames
+  unitsOf q0 (added ++ derived ++ orig)
+
+/-- insert `x` at position `i` -/
+def insertAt (l : List Hdr) (i : Nat) (x : Hdr) : List Hdr := l.take i ++ x :: l.drop i
+
+/-- every head the properties admit: C02 / C16 fix that caller-added lines come first in their order, then the
+    original ones, and that the derived Host / framing lines are present exactly once — not where these sit.
+    All positions for up to 12 fixed lines; start / after the caller-added block / end beyond that. -/
+def admissibleHeads (q0 : OReq) (dropNames : List String) : List (List Bytes) :=
+  let (derived, added, orig) := derivedAndFixed q0 dropNames
+  let fixed := added ++ orig
+  let n := fixed.length
+  let positions : List Nat := if n ≤ 12 then List.range (n + 1) else [0, added.length, n]
+  let layouts : List (List Hdr) :=
+    match derived with
+    | [] => [fixed]
+    | [d] => positions.map fun i => insertAt fixed i d
+    | d1 :: d2 :: _ =>
+      (positions.map fun i => positions.map fun j =>
+        -- d1 at i, d2 at j (positions in the list without the other); both orders when they meet
+        if i ≤ j then [insertAt (insertAt fixed j d2) i d1] ++ (if i == j then [insertAt (insertAt fixed i d1) i d2] else [])
+        else [insertAt (insertAt fixed i d1) j d2]).flatten.flatten
+  (unitsOf q0 (added ++ derived ++ orig)) :: (layouts.map (unitsOf q0)).filter (· != unitsOf q0 (added ++ derived ++ orig))
 
 /-- headers inherited by the request created for a redirect (C13's rule, needed to know the effective
     headers at depth > 0): cookie and content-length never, authorization only with the same-host policy,
@@ -122,7 +153,7 @@ def startUnits (s : HeadSt) : HeadSt :=
   | some q =>
     let opt := q.optional.filter fun n => q.orig.any (·.name == n)
     let drops : List (List String) := opt.foldl (fun acc n => acc ++ acc.map (· ++ [n])) [[]]
-    { s with units := expectedUnits q, cands := drops.map (expectedUnits q ·), started := true }
+    { s with units := expectedUnits q, cands := (drops.map (admissibleHeads q ·)).flatten, started := true }
   | none => s
 
 /-- maximal run of whole units that fits `cap` -/
@@ -219,9 +250,24 @@ def oracleC02 (c : TCase) : Verdict :=
 def oracleC17 (c : TCase) : Verdict :=
   match (walkHead c true).fail with | some w => .fail w | none => .ok
 
-/-- C16: on accepted requests the head must carry every added header, in order, ahead of the originals —
-    which the exact-image check of `walkHead` implies; additionally the added lines are looked up in the
-    bytes actually written. -/
+/-- is `xs` a subsequence of `ys` (same order, gaps allowed)? -/
+def isSubseqOf : List Bytes → List Bytes → Bool
+  | [], _ => true
+  | _ :: _, [] => false
+  | x :: xs, y :: ys => if x == y then isSubseqOf xs ys else isSubseqOf (x :: xs) ys
+
+/-- CRLF-terminated lines of a head (terminators kept) -/
+def crlfLines (b : Bytes) : List Bytes :=
+  let rec go (fuel : Nat) (rest cur : Bytes) (acc : List Bytes) : List Bytes :=
+    match fuel, rest with
+    | 0, _ => acc.reverse
+    | _, [] => (if cur.isEmpty then acc else cur.reverse :: acc).reverse
+    | f + 1, 13 :: 10 :: r => go f r [] ((10 :: 13 :: cur).reverse :: acc)
+    | f + 1, x :: r => go f r (x :: cur) acc
+  go (b.length + 1) b [] []
+
+/-- C16: on accepted requests every added header is on the wire, in the order added and ahead of the original
+    ones (the exact-image check of `walkHead` over the admissible layouts implies it; checked again on the bytes) -/
 def oracleC16 (c : TCase) : Verdict :=
   let s := walkHead c false
   match s.fail with
@@ -230,8 +276,16 @@ def oracleC16 (c : TCase) : Verdict :=
     match s.req with
     | some q =>
       if invalidReq q || !s.complete then .ok else
-      let expectPrefix := (q.added.map headerLineO).flatten
-      let afterLine := s.wire.drop ((expectedUnits q).headD []).length
-      if afterLine.take expectPrefix.length == expectPrefix then .ok
-      else .fail s!"caller-added headers are not on the wire in order ahead of the others: expected {toHex (expectPrefix.take 80)}"
+      -- every added header is on the wire, in the order added, ahead of every original header
+      let lines := crlfLines s.wire
+      let addedLines := q.added.map headerLineO
+      let origLines := q.orig.map headerLineO
+      if !isSubseqOf addedLines lines then
+        .fail s!"caller-added headers are not all on the wire in the order added: expected {toHex ((addedLines.flatten).take 80)}"
+      else
+        -- the part of the head after the last added line still holds all original lines it had to hold
+        let afterAdded := addedLines.foldl (fun (rest : List Bytes) a => (rest.dropWhile (· != a)).drop 1) lines
+        let origKept := origLines.filter fun l => lines.contains l
+        if isSubseqOf origKept afterAdded || addedLines.isEmpty then .ok
+        else .fail "an original header is emitted ahead of a caller-added one"
     | none => .ok
